@@ -1,0 +1,103 @@
+//! Verification hooks (cargo feature `verif-hooks`, off by default).
+//!
+//! Nothing here changes behaviour unless a harness installs a callback: every
+//! entry point is a no-op by default. The hooks let an external monitor
+//! (i) place events (thread exits, signals, delays) at exact points of a dump,
+//! (ii) make the thread-name read of chosen threads fail, and (iii) count
+//! array-slot writes that fall outside the array they were reserved for.
+
+use std::sync::{
+    atomic::{AtomicU64, Ordering},
+    Mutex,
+};
+
+#[derive(Debug, Clone, Copy, PartialEq, Eq)]
+pub enum Point {
+    /// `/proc/<pid>/task` has been read; nothing is attached yet
+    ThreadsEnumerated,
+    /// about to `PTRACE_ATTACH` the thread
+    BeforeAttach(i32),
+    /// `PTRACE_ATTACH` returned successfully, `waitpid` not yet called
+    Attached(i32),
+    /// about to re-inject a non-SIGSTOP signal into the thread (tid, signo)
+    Reinjected(i32, i32),
+    /// attach + wait + register probe of the thread finished (tid, kept)
+    AfterAttach(i32, bool),
+    /// all threads were processed by `suspend_threads`
+    ThreadsSuspended,
+    /// a flush of the image to the destination completed; the argument is the
+    /// number of directory entries emitted so far
+    Flushed(u32),
+    /// `resume_threads` is about to detach (only when threads are suspended)
+    BeforeResume,
+    /// about to `PTRACE_DETACH` the thread
+    BeforeDetach(i32),
+    /// `resume_threads` finished
+    AfterResume,
+}
+
+type SyncCb = Box<dyn FnMut(Point) + Send>;
+type NameFaultCb = Box<dyn FnMut(i32) -> bool + Send>;
+
+static SYNC: Mutex<Option<SyncCb>> = Mutex::new(None);
+static NAME_FAULT: Mutex<Option<NameFaultCb>> = Mutex::new(None);
+static ARRAY_WRITES: AtomicU64 = AtomicU64::new(0);
+static ARRAY_WRITES_OUT_OF_RANGE: AtomicU64 = AtomicU64::new(0);
+
+/// Installs (or removes) the synchronous callback invoked at every [`Point`].
+pub fn set_sync(cb: Option<SyncCb>) {
+    *SYNC.lock().unwrap_or_else(|e| e.into_inner()) = cb;
+}
+
+/// Installs (or removes) the predicate that makes a thread-name read fail.
+pub fn set_thread_name_fault(cb: Option<NameFaultCb>) {
+    *NAME_FAULT.lock().unwrap_or_else(|e| e.into_inner()) = cb;
+}
+
+/// Called by the library at each point. The callback is taken out of the slot
+/// while it runs so that it may itself call into the library.
+pub fn sync(point: Point) {
+    let cb = SYNC.lock().unwrap_or_else(|e| e.into_inner()).take();
+    if let Some(mut cb) = cb {
+        cb(point);
+        let mut slot = SYNC.lock().unwrap_or_else(|e| e.into_inner());
+        if slot.is_none() {
+            *slot = Some(cb);
+        }
+    }
+}
+
+pub fn thread_name_fault(tid: i32) -> bool {
+    let cb = NAME_FAULT.lock().unwrap_or_else(|e| e.into_inner()).take();
+    if let Some(mut cb) = cb {
+        let res = cb(tid);
+        let mut slot = NAME_FAULT.lock().unwrap_or_else(|e| e.into_inner());
+        if slot.is_none() {
+            *slot = Some(cb);
+        }
+        res
+    } else {
+        false
+    }
+}
+
+/// Records a write to slot `index` of an array reserved with `len` slots.
+pub fn array_index(index: usize, len: usize) {
+    ARRAY_WRITES.fetch_add(1, Ordering::Relaxed);
+    if index >= len {
+        ARRAY_WRITES_OUT_OF_RANGE.fetch_add(1, Ordering::Relaxed);
+    }
+}
+
+/// `(array slot writes seen, of which out of range)` since the last reset.
+pub fn array_index_counters() -> (u64, u64) {
+    (
+        ARRAY_WRITES.load(Ordering::Relaxed),
+        ARRAY_WRITES_OUT_OF_RANGE.load(Ordering::Relaxed),
+    )
+}
+
+pub fn reset_array_index_counters() {
+    ARRAY_WRITES.store(0, Ordering::Relaxed);
+    ARRAY_WRITES_OUT_OF_RANGE.store(0, Ordering::Relaxed);
+}
